@@ -290,22 +290,28 @@ def rationalise_literals(text):
         g = gcd(num, den) or 1
         cnt[0] += 1
         num, den = num // g, den // g
-        # RQ takes int arguments: larger numerators / denominators are written as a product of int-sized factors
-        def factors(v):
-            out = []
-            while v > 1000000000:
-                if v % 1000000000 == 0:
-                    out.append(1000000000); v //= 1000000000
-                else:
-                    raise ExtractError("literal %s does not fit RQ(int, int)" % m.group(0))
-            out.append(v)
-            return out
-        nf, df = factors(num), factors(den)
-        if len(nf) == 1 and len(df) == 1:
+        # RQ takes int arguments: a larger numerator / denominator is written in base 10^9 (Horner form) or, for powers of ten,
+        # as a product of int-sized factors
+        B = 1000000000
+        if num <= B and den <= B:
             return "RQ(%d,%d)" % (num, den)
-        k = max(len(nf), len(df))
-        nf += [1] * (k - len(nf)); df += [1] * (k - len(df))
-        return "(" + " * ".join("RQ(%d,%d)" % (a, b) for a, b in zip(nf, df)) + ")"
+
+        def big(v):
+            if v <= B:
+                return "RQ(%d,1)" % v
+            q, r_ = divmod(v, B)
+            if r_ == 0:
+                return "%s * RQ(%d,1)" % (big(q), B)
+            return "(%s * RQ(%d,1) + RQ(%d,1))" % (big(q), B, r_)
+        if num <= B:
+            # num / 10^k style: product of reciprocals keeps the terms small
+            f, v = [], den
+            while v > B and v % B == 0:
+                f.append(B); v //= B
+            if v <= B:
+                f.append(v)
+                return "(" + " * ".join(["RQ(%d,%d)" % (num, f[0])] + ["RQ(1,%d)" % x for x in f[1:]]) + ")"
+        return "((%s) / (%s))" % (big(num), big(den))
 
     return FLOAT_LIT.sub(rep, text), cnt[0]
 
@@ -978,6 +984,29 @@ def native_driver(src, args, timeout=300):
                     res = {"status": "error", "detail": "native replay timed out"}
         _NATIVE_CACHE[key] = res
         return res
+
+
+def native_generated(name, source_text, args=(), timeout=300):
+    """compile a replay driver GENERATED for one violation (source_text; it includes the real headers of VERIF_REPO and links the
+    library built from that tree) and run it; exit 1 of the driver = the violation reproduces on the real code"""
+    with _NATIVE_LOCK:
+        b, err = native_library()
+        if b is None:
+            return {"status": "error", "detail": err}
+        srcf = os.path.join(b, name + ".cpp")
+        exe = os.path.join(b, name)
+        open(srcf, "w").write(source_text)
+        rc, so, se, _ = _run(["g++", "-std=c++20", "-O1", "-fopenmp", "-I" + os.path.join(REPO, "include"), srcf,
+                              os.path.join(b, "libGMGPolarLib.a"), os.path.join(b, "libPolarGrid.a"), os.path.join(b, "libInputFunctions.a"), "-o", exe], b, 900, 16)
+        if rc != 0:
+            return {"status": "error", "detail": "generated replay driver did not compile: " + (so + se)[-800:]}
+        env = dict(os.environ, OMP_WAIT_POLICY="passive")
+        try:
+            p = subprocess.run([exe] + [str(a) for a in args], capture_output=True, text=True, timeout=timeout, env=env)
+            return {"status": "reproduced" if p.returncode == 1 else ("not-reproduced" if p.returncode == 0 else "error"),
+                    "command": name + " " + " ".join(str(a) for a in args), "detail": p.stdout[-1500:] + p.stderr[-300:]}
+        except subprocess.TimeoutExpired:
+            return {"status": "error", "detail": "native replay timed out"}
 
 
 def last_values(rec):
